@@ -240,6 +240,7 @@ class OriginBank:
                 rec["uid"] = uid
                 if flags & F_STALL_RST:
                     import socket as _s, struct as _st
+                    w.transport.pause_reading()  # asyncio would otherwise keep draining the socket into its own buffer
                     await asyncio.sleep(0.4)
                     w.get_extra_info("socket").setsockopt(_s.SOL_SOCKET, _s.SO_LINGER, _st.pack("ii", 1, 0))
                     w.transport.abort()
